@@ -21,6 +21,7 @@ import (
 	"sync"
 	"sync/atomic"
 	"testing"
+	"time"
 
 	"pgregory.net/rapid"
 
@@ -118,10 +119,26 @@ func TestVerif_C11_tickets(t *testing.T) {
 			}()
 		}
 		multi := 0
+		// the harness' own looks at the run table: no request is in flight when they happen, so the
+		// table's mutex must be free; a mutex still held then is a lock that was never released
+		lock := func(r int, when string) {
+			for t0 := time.Now(); !raf.runningMu.TryLock(); time.Sleep(time.Millisecond) {
+				if time.Since(t0) > 30*time.Second {
+					t.Fatalf("C11 violated (tickets): round %d, %s: no run request is in flight but the run table's mutex is held (for 30s): an admission path returned without releasing it; every later run request, kill and status call hangs\nVERIF-CASE-BEGIN\n%s\nVERIF-CASE-END", r, when, c17JSON(c))
+				}
+			}
+		}
 		for r := 0; r < c.Rounds; r++ {
 			close(starts[r])
 			for i := 0; i < nreq; i++ {
-				<-done
+				select {
+				case <-done:
+				case <-time.After(60 * time.Second):
+					// nothing but the run table's mutex stands between a request and its answer: a request
+					// that has no answer after a minute never gets one, and with it every later run request,
+					// kill and status call of the hub
+					t.Fatalf("C11 violated (tickets): round %d: %d of %d simultaneous run requests got no answer within 60s (admission hangs; the hub can neither start nor end a run any more)\nVERIF-CASE-BEGIN\n%s\nVERIF-CASE-END", r, nreq-i, nreq, c17JSON(c))
+				}
 			}
 			// all requesters of this round have their answer; tickets are still out
 			out := map[string]int{}
@@ -145,7 +162,7 @@ func TestVerif_C11_tickets(t *testing.T) {
 			if full > c.PoolFull || incr > c.PoolIncr {
 				t.Fatalf("C11 violated (tickets): round %d: %d fullsync and %d incremental tickets are out, the pools hold %d and %d\nVERIF-CASE-BEGIN\n%s\nVERIF-CASE-END", r, full, incr, c.PoolFull, c.PoolIncr, c17JSON(c))
 			}
-			raf.runningMu.Lock()
+			lock(r, "after all requests were answered")
 			listed, tf, ti := len(raf.runningJobs), raf.ticketsFull, raf.ticketsIncr
 			for id := range out {
 				if raf.runningJobs[id] == nil {
@@ -167,7 +184,7 @@ func TestVerif_C11_tickets(t *testing.T) {
 					got[i] = nil
 				}
 			}
-			raf.runningMu.Lock()
+			lock(r, "after the tickets were returned")
 			listed, tf, ti = len(raf.runningJobs), raf.ticketsFull, raf.ticketsIncr
 			raf.runningMu.Unlock()
 			if listed != 0 || tf != c.PoolFull || ti != c.PoolIncr {
